@@ -8,17 +8,24 @@
 #include "mxh.h"
 using namespace vf; using namespace mxh;
 
-struct Scn { bool vclient; int ver; Suite su; int kind; /*0 full 1 cauth 2 resumed*/ std::vector<size_t> vsend, psend; long corrupt_at; /* absolute offset in P->V stream, -1 none */ uint8_t corrupt_mask; bool close; uint32_t eseed; };
+struct Scn { bool vclient; int ver; Suite su; int kind; /*0 full 1 cauth 2 resumed*/ std::vector<size_t> vsend, psend; long corrupt_at; /* absolute offset in P->V stream, -1 none */ uint8_t corrupt_mask; bool close; uint32_t eseed; bool bigchain; /* RSA identities with a two-certificate chain: Certificate records larger than the default 1500-byte input buffer */ int ccs_before; /* TLS 1.3: middlebox-compatibility CCS record inserted before this record of the P->V stream, -1 none */ };
 struct Part { int mode; /*0 whole 1 byte 2 small-random 3 record-straddle 4 big-random*/ size_t out_piece; bool defer; std::vector<uint16_t> sizes; bool use_readbuf_of_size; };
 struct Trace { std::vector<Event> ev; Bytes delivered; Bytes out; bool complete; std::string str() const { std::string s; for (auto &e : ev) s += fmt("(%d,%d,%d)", e.kind, e.a, e.b); return s; } };
 
 static Bytes amsg(int i, size_t n) { Bytes b(n); for (size_t k = 0; k < n; k++) b[k] = (uint8_t) ('a' + (i * 3 + k + (k >> 7)) % 26); return b; }
 
+static sslKeys_t *chain_keys(bool server) {
+    sslKeys_t *k = nullptr; if (matrixSslNewKeys(&k, NULL) < 0) return nullptr;
+    std::string d = verif_dir(), c = d + "/props/C04/pki/chain_ica_rsa.pem", p = d + "/props/C04/pki/via_ica_rsa.key", a = d + "/pki/ca_rsa.pem";
+    if (matrixSslLoadKeys(k, c.c_str(), p.c_str(), NULL, a.c_str(), NULL) < 0 || (server && KeyStore::load_ticket_keys(k) < 0)) { matrixSslDeleteKeys(k); return nullptr; }
+    return k;
+}
+
 static Trace run(const Scn &sc, const Part &pt, Ctx &c, bool is_ref, sslSessionId_t *sid) {
     vfh_entropy_reset(900 + sc.eseed); vfh_clock_set_ms(1000000);
     if (getenv("VFH_TRACE")) { vfh_trace = 1; fprintf(stderr, "=== run %s\n", is_ref ? "whole" : "chunked"); }
     // fresh key sets per run: the ephemeral ECDHE key cache inside sslKeys_t is state that would otherwise leak from the reference run into the chunked run
-    struct KG { sslKeys_t *k; ~KG() { if (k) matrixSslDeleteKeys(k); } } kc{ KeyStore::fresh(false, sc.su.auth, sc.kind == 1) }, ks{ KeyStore::fresh(true, sc.su.auth, true) };
+    struct KG { sslKeys_t *k; ~KG() { if (k) matrixSslDeleteKeys(k); } } kc{ sc.bigchain && sc.kind == 1 ? chain_keys(false) : KeyStore::fresh(false, sc.su.auth, sc.kind == 1) }, ks{ sc.bigchain ? chain_keys(true) : KeyStore::fresh(true, sc.su.auth, true) };
     if (!kc.k || !ks.k) throw Discard{};
     Pair p; Config cc, scf; cc.client = true; scf.client = false; cc.versions = scf.versions = { sc.ver }; cc.suites = { sc.su.id }; cc.auth = scf.auth = sc.su.auth;
     cc.entropy_stream = 1; scf.entropy_stream = 2; cc.client_auth = scf.client_auth = (sc.kind == 1); cc.sid = sid;
@@ -27,9 +34,15 @@ static Trace run(const Scn &sc, const Part &pt, Ctx &c, bool is_ref, sslSessionI
     if (p.s.open(scf) < 0 || p.c.open(cc) < 0) throw Discard{};
     Endpoint &V = sc.vclient ? p.c : p.s, &P = sc.vclient ? p.s : p.c;
     V.out_piece = pt.out_piece; V.defer_pump = pt.defer;
-    size_t p2v_off = 0; size_t part_i = 0;
+    size_t p2v_off = 0; size_t part_i = 0; int p2v_rec = 0;
     Bytes vout_all;
     auto feed_v = [&](Bytes d) {
+        // a compatibility-mode change_cipher_spec record (RFC 8446 appendix D.4) inserted at a record boundary, identically in both runs
+        if (sc.ccs_before >= 0) {
+            Bytes o; size_t last = 0;
+            for (auto &r : parse_records(d, false)) { if (p2v_rec++ == sc.ccs_before) { o.insert(o.end(), d.begin() + last, d.begin() + r.off); last = r.off; static const uint8_t ccs[6] = { 20, 3, 3, 0, 1, 1 }; o.insert(o.end(), ccs, ccs + 6); } }
+            o.insert(o.end(), d.begin() + last, d.end()); d.swap(o);
+        }
         // in-transit corruption at an absolute stream offset (identical in both runs)
         if (sc.corrupt_at >= 0 && (size_t) sc.corrupt_at >= p2v_off && (size_t) sc.corrupt_at < p2v_off + d.size()) d[sc.corrupt_at - p2v_off] ^= sc.corrupt_mask;
         p2v_off += d.size();
@@ -88,6 +101,8 @@ static void prop(Tape &t, Ctx &c) {
     for (size_t i = 0; i < np; i++) sc.psend.push_back(t.chance(1, 2) ? L[t.below(L.size())] : 1 + t.below(3000));
     sc.close = t.coin(); sc.eseed = t.u16();
     sc.corrupt_at = t.chance(1, 3) ? (long) t.below(6000) : -1; sc.corrupt_mask = (uint8_t) (1 << t.below(8));
+    sc.bigchain = sc.su.auth == AUTH_RSA && t.chance(1, 3);
+    sc.ccs_before = (sc.ver == TLS13 && t.chance(1, 2)) ? (int) t.below(7) : -1;
     Part pt; pt.mode = 1 + (int) t.below(4);
     pt.out_piece = t.chance(1, 2) ? (size_t) -1 : (size_t) t.pick(std::vector<int>{ 1, 2, 7, 100, 1000, 5000 });
     pt.defer = t.chance(1, 3); pt.use_readbuf_of_size = false;
@@ -98,7 +113,7 @@ static void prop(Tape &t, Ctx &c) {
         pt.sizes.push_back(v);
     }
     std::string vs, ps, zs; for (auto n : sc.vsend) vs += std::to_string(n) + ","; for (auto n : sc.psend) ps += std::to_string(n) + ","; for (auto n : pt.sizes) zs += std::to_string(n) + ",";
-    std::string desc = fmt("victim=%s %s %s kind=%d vsend=[%s] psend=[%s] close=%d corrupt@%ld^%02x | mode=%d sizes=[%s] out_piece=%zd defer=%d", sc.vclient ? "client" : "server", ver_name(sc.ver), sc.su.name, sc.kind,
+    std::string desc = fmt("victim=%s %s %s kind=%d bigchain=%d ccs-before-rec=%d vsend=[%s] psend=[%s] close=%d corrupt@%ld^%02x | mode=%d sizes=[%s] out_piece=%zd defer=%d", sc.vclient ? "client" : "server", ver_name(sc.ver), sc.su.name, sc.kind, sc.bigchain, sc.ccs_before,
                            vs.c_str(), ps.c_str(), sc.close, sc.corrupt_at, sc.corrupt_mask, pt.mode, zs.c_str(), (ssize_t) pt.out_piece, pt.defer);
     c.sample(desc); if (c.verbose) fprintf(stderr, "case: %s\n", desc.c_str());
 
@@ -116,6 +131,7 @@ static void prop(Tape &t, Ctx &c) {
     prime(&sid); Trace a = run(sc, whole, c, true, sid); if (sid) matrixSslDeleteSessionId(sid);
     prime(&sid); Trace b = run(sc, pt, c, false, sid); if (sid) matrixSslDeleteSessionId(sid);
     c.count(a.complete ? "ref-handshake-complete" : "ref-handshake-failed");
+    if (sc.bigchain) c.count("two-certificate-chain"); if (sc.ccs_before >= 0) c.count("compat-ccs-injected"); if (sc.bigchain && sc.ccs_before >= 0) c.count("compat-ccs+large-certificate-record");
     c.count(fmt("mode:%d", pt.mode)); if (pt.defer) c.count("deferred-drain"); if (pt.out_piece != (size_t) -1) c.count("partial-sends");
     VF_CHECK(a.complete == b.complete, "chunking-changes-handshake-result", "handshake result differs: whole=%d chunked=%d; %s", a.complete, b.complete, desc.c_str());
     VF_CHECK(a.str() == b.str(), "chunking-changes-events", "event trace differs: whole=%s chunked=%s; %s", a.str().c_str(), b.str().c_str(), desc.c_str());
@@ -125,7 +141,7 @@ static void prop(Tape &t, Ctx &c) {
         if (c.verbose) { auto dump = [&](const char *n, const Bytes &w) { fprintf(stderr, "%s:", n); for (auto &r : parse_records(w, false)) fprintf(stderr, " [t%u len%zu @%zu]", r.type, r.len, r.off); fprintf(stderr, "\n  around diff: %s\n", hex(w.data() + (i > 8 ? i - 8 : 0), std::min((size_t) 40, w.size() - (i > 8 ? i - 8 : 0))).c_str()); }; dump("whole  ", a.out); dump("chunked", b.out); }
         VF_FAIL("chunking-changes-output-bytes", "output differs at offset %zu (whole %zu bytes, chunked %zu bytes); %s", i, a.out.size(), b.out.size(), desc.c_str());
     }
-    c.nontrivial(fmt("%d|%d|%04x|%d|%d|%d|%d|%d", sc.vclient, sc.ver, sc.su.id, sc.kind, pt.mode, pt.defer, pt.out_piece != (size_t) -1, sc.corrupt_at >= 0 ? (a.complete ? 1 : 2) : 0));
+    c.nontrivial(fmt("%d|%d|%d|%d|%04x|%d|%d|%d|%d|%d", sc.bigchain, sc.ccs_before, sc.vclient, sc.ver, sc.su.id, sc.kind, pt.mode, pt.defer, pt.out_piece != (size_t) -1, sc.corrupt_at >= 0 ? (a.complete ? 1 : 2) : 0));
 }
 VF_TARGET("C18.chunking", prop, 256, 120)
 namespace vf { void vf_global_init(int, char **) { mxh::global_open(); } }
